@@ -684,3 +684,91 @@ ADAPT_MPI_WIDE = Stream('cli_adapt_mpi_wide', cli_harness, None, gen_adapt_mpi, 
                         np=[5, 8], nontrivial=lambda op, out: out.startswith('rc=0'), timeout=1800,
                         batches={'quick': 1, 'thorough': 2})
 ADAPT_MPI_WIDE.thorough_only = True
+
+
+# ------------------------------------------------------------------ format conversion (C08, C07)
+FORMATS = ['meshb', 'lb8.ugrid', 'b8.ugrid', 'lb8l.ugrid', 'b8l.ugrid', 'lb8.ugrid64', 'b8.ugrid64']
+
+
+def sc_convert(ctx, d, case):
+    rng = random.Random(int(d.get('mseed', '1')))
+    n = [int(x) for x in d.get('n', '2,2,2').split(',')]
+    if d.get('mesh', 'box') == 'slab':
+        v, cells = meshgen.prism_slab(n[0], n[1], n[2], rng, float(d.get('jitter', '0')),
+                                      big_ids=d.get('bigids', '0') == '1')
+    else:
+        v, t, s = meshgen.box_tets(n[0], n[1], n[2], rng, float(d.get('jitter', '0')), patches=d.get('patches', 'sides'))
+        if d.get('bigids', '0') == '1':
+            s = [x[:3] + (x[3] + 20000000,) for x in s]
+        cells = {'tet': t, 'tri': s}
+    src = os.path.join(case, 'in.' + d.get('in', 'meshb'))
+    dst = os.path.join(case, 'out.' + d.get('out', 'meshb'))
+    pyio.write_mesh(src, 3, v, cells, version=int(d.get('mv', '2')))
+    pyio.write_meshb(os.path.join(case, 'truth.meshb'), 3, v, cells, version=4)
+    np = int(d.get('np', '0'))
+    rc, tail = run_ref(ctx, np, ['translate', src, dst], case, env_extra=knobs(d))
+    return 'rc=%d dir=%s' % (rc, case)
+
+
+def oracle_convert(ops, impl):
+    bad = []
+    for i, (op, line) in enumerate(zip(ops, impl)):
+        d = kv(op)
+        o = parse_out(line)
+        if o.get('rc') != '0':
+            bad.append((i, 'translate %s -> %s exited with status %s' % (d.get('in'), d.get('out'), o.get('rc'))))
+            continue
+        truth = pyio.read_meshb(os.path.join(o['dir'], 'truth.meshb'))
+        try:
+            got = pyio.read_mesh(os.path.join(o['dir'], 'out.' + d.get('out', 'meshb')))
+        except Exception as ex:
+            bad.append((i, 'C08 output not parseable by the independent reader of the published layout: %r' % (ex,)))
+            continue
+        tv = [tuple(p) for p in truth['verts']]
+        gv = [tuple(p) for p in got['verts']]
+        if tv != gv:
+            bad.append((i, 'C08/C07 vertices differ after %s -> %s (np=%s): same coordinates in the same order expected' %
+                        (d.get('in'), d.get('out'), d.get('np', '0'))))
+            continue
+        a, b = canon_cells(truth), canon_cells(got)
+        if d.get('out', 'meshb') != 'meshb':
+            for k in ('tet', 'pri', 'pyr', 'hex'):   # ugrid stores no tag for volume cells
+                if k in a:
+                    a[k] = sorted(c[:-1] + (0,) for c in a[k])
+                if k in b:
+                    b[k] = sorted(c[:-1] + (0,) for c in b[k])
+        if a != b:
+            diff = [k for k in set(a) | set(b) if a.get(k) != b.get(k)]
+            ex = ''
+            for k in diff[:1]:
+                sa, sb = a.get(k, []), b.get(k, [])
+                for x, y in zip(sa, sb):
+                    if x != y:
+                        ex = ' e.g. %s: tags %s vs %s' % (k, x[-1], y[-1]) if x[:-1] == y[:-1] else ' e.g. %s cell differs' % k
+                        break
+            bad.append((i, 'C08/C07 cells (with tags) differ after %s -> %s (np=%s) in %s%s' %
+                        (d.get('in'), d.get('out'), d.get('np', '0'), diff, ex)))
+    return bad
+
+
+def gen_convert(rng, tier, np=None):
+    ops = []
+    for _ in range(10 if tier == 'quick' else 40):
+        mesh = rng.choice(['slab', 'box'])
+        n = [rng.randint(1, 3) for _ in range(3)]
+        op = 'convert mesh=%s n=%d,%d,%d jitter=%.2f mseed=%d in=%s out=%s mv=%d bigids=%d' % (
+            mesh, n[0], n[1], n[2], rng.choice([0, 0.3]), rng.randint(1, 10 ** 6), rng.choice(FORMATS), rng.choice(FORMATS),
+            rng.choice([2, 3, 4]), 1 if rng.random() < 0.4 else 0)
+        if np:
+            op += ' np=%d' % np
+            if rng.random() < 0.5:
+                op += ' chunk=%d' % rng.choice([64, 200, 4096])
+        ops.append(op)
+    return ops
+
+
+SCENARIOS['convert'] = sc_convert
+CONVERT = Stream('cli_convert', cli_harness, None, gen_convert, oracle=oracle_convert, kind='oracle',
+                 nontrivial=lambda op, out: out.startswith('rc=0'), timeout=600)
+CONVERT_MPI = Stream('cli_convert_mpi', cli_harness, None, gen_convert, oracle=oracle_convert, kind='oracle',
+                     np=[2, 3], nontrivial=lambda op, out: out.startswith('rc=0'), timeout=900)
